@@ -10,6 +10,10 @@
 //!                                            (hooks) and the public typed calculate_token /
 //!                                            compute_partition_key
 //!   T <m|c> <values>                         calculate_token_for_partition_key (hook)
+//!   P <N|V<name bytes>> <bytes>              PartitionerName::from_str (hook); then the expression of
+//!                                            Session::prepare / ClusterState::do_compute_token
+//!                                            `name.and_then(from_str).unwrap_or_default()` (rebuilt here
+//!                                            from the hook and the real Default), build_hasher/write/finish
 use bytes::Bytes;
 use scylla::routing::partitioner::{
     CDCPartitioner, Murmur3Partitioner, Partitioner, PartitionerHasher, PartitionerName,
@@ -18,6 +22,7 @@ use scylla_cql::serialize::row::SerializedValues;
 use scylla::statement::prepared::{
     PartitionKeyError, PartitionKeyExtractionError, PreparedStatement, TokenCalculationError,
 };
+use scylla::routing::verif_partitioner as phooks;
 use scylla::statement::verif_prepared as hooks;
 use scylla::value::MaybeUnset;
 use scylla_cql::frame::protocol_features::ProtocolFeatures;
@@ -209,6 +214,31 @@ fn run_case(case: &str) -> String {
                 Ok(Err(e)) => token_err(&e),
                 Err(_) => "panic".into(),
             }
+        }
+        "P" => {
+            let name: Option<String> =
+                if f[1] == "N" { None } else { Some(String::from_utf8(unhex(&f[1][1..])).expect("utf8 name")) };
+            let data = unhex(f[2]);
+            let from = match &name {
+                None => "na".to_string(),
+                Some(n) => match phooks::partitioner_name_from_str(n) {
+                    None => "none".into(),
+                    Some(PartitionerName::Murmur3) => "m".into(),
+                    Some(PartitionerName::CDC) => "c".into(),
+                    Some(_) => "other".into(),
+                },
+            };
+            let chosen: PartitionerName =
+                name.as_deref().and_then(phooks::partitioner_name_from_str).unwrap_or_default();
+            let tok = match catch(move || {
+                let mut h = chosen.build_hasher();
+                h.write(&data);
+                h.finish().value()
+            }) {
+                Ok(t) => hex_i(t as i128),
+                Err(_) => "panic".into(),
+            };
+            format!("{} {}", from, tok)
         }
         "K" => {
             let ncols = usize::from_str_radix(f[2], 16).unwrap();
@@ -414,6 +444,42 @@ fn gen_t_case(r: &mut Rng) -> String {
     format!("T {} {}", p, values_to_string(&vals))
 }
 
+fn gen_p_case(r: &mut Rng) -> String {
+    const M: &str = "Murmur3Partitioner";
+    const C: &str = "CDCPartitioner";
+    let name: Option<String> = match r.below(16) {
+        0 => None,
+        1 => Some("org.apache.cassandra.dht.Murmur3Partitioner".into()),
+        2 | 3 => Some("com.scylladb.dht.CDCPartitioner".into()),
+        4 => Some(C.into()),
+        5 => Some(M.into()),
+        6 => Some(r.pick(&["org.apache.cassandra.dht.RandomPartitioner", "", "Partitioner", "cdcpartitioner",
+                           "org.apache.cassandra.dht.ByteOrderedPartitioner", "CDCPartitioner ", "Murmur3Partitioner\n"]).to_string()),
+        7 => Some(format!("{}{}", M, C)),
+        8 => Some(format!("{}{}", C, M)),
+        9 => Some(format!("żółć.{}", if r.bool() { C } else { M })),
+        10 => {
+            // a proper suffix / a name missing its last or first character
+            let base = if r.bool() { C } else { M };
+            let cut = r.range(1, 3) as usize;
+            Some(if r.bool() { base[cut..].to_string() } else { base[..base.len() - cut].to_string() })
+        }
+        _ => {
+            let n = r.range(0, 12) as usize;
+            let pre: String = (0..n).map(|_| (b'a' + r.below(26) as u8) as char).collect();
+            let suf = *r.pick(&[M, C, "", "Partitioner", "DCPartitioner", "3Partitioner"]);
+            Some(format!("{}{}{}", pre, if r.bool() { "." } else { "" }, suf))
+        }
+    };
+    let len = r.range(0, 24) as usize;
+    let data = gen_bytes(r, len);
+    let n = match &name {
+        None => "N".to_string(),
+        Some(s) => format!("V{}", if s.is_empty() { String::new() } else { hex_bytes(s.as_bytes()) }),
+    };
+    format!("P {} {}", n, hex_bytes(&data))
+}
+
 /// all injective maps from k sequence positions into m marker positions
 fn injections(k: usize, m: usize, cur: &mut Vec<u16>, out: &mut Vec<Vec<u16>>) {
     if cur.len() == k {
@@ -495,7 +561,8 @@ fn main() {
                     let len = r.range(0, 20) as usize;
                     vals[i as usize] = Val::Value(gen_bytes(&mut r, len));
                 }
-                emit(format!("K m {:x} {} {}", m, hex_list(&wire), values_to_string(&vals)), &mut out);
+                let p = if r.chance(1, 5) { "c" } else { "m" };
+                emit(format!("K {} {:x} {} {}", p, m, hex_list(&wire), values_to_string(&vals)), &mut out);
             }
         }
     }
@@ -507,6 +574,16 @@ fn main() {
     }
     let big = gen_bytes(&mut r, 65537);
     emit(format!("K m 1 0 V{}", hex_bytes(&big)), &mut out);
+
+    // partitioner selection: the class names a table can carry
+    for name in ["org.apache.cassandra.dht.Murmur3Partitioner", "com.scylladb.dht.CDCPartitioner",
+                 "org.apache.cassandra.dht.RandomPartitioner", "CDCPartitioner", "Murmur3Partitioner", ""] {
+        for data in ["0102030405060708090a0b0c0d0e0f10", "80ff", "-"] {
+            let n = if name.is_empty() { "V".to_string() } else { format!("V{}", hex_bytes(name.as_bytes())) };
+            emit(format!("P {} {}", n, data), &mut out);
+        }
+    }
+    emit("P N 0102030405060708090a0b0c0d0e0f10".to_string(), &mut out);
 
     // seeded random part
     for _ in 0..a.n {
@@ -523,7 +600,8 @@ fn main() {
                 let cs = gen_chunking(&mut r, &data);
                 format!("W {} {}", p, chunks_to_string(&cs))
             }
-            11..=17 => gen_k_case(&mut r),
+            11..=16 => gen_k_case(&mut r),
+            17 => gen_p_case(&mut r),
             _ => gen_t_case(&mut r),
         };
         emit(c, &mut out);
